@@ -85,9 +85,6 @@ Inductive cache : Type :=
 Record pctx : Type := mkCtx { c_cache : cache; c_target : option (list N) }.
 Definition default_ctx : pctx := mkCtx (CFixed []) None.
 
-(* jiff Timestamp::MAX = 9999-12-30T22:00:00.999999999Z *)
-Definition TS_MAX : Z := 253402207200999999999.
-
 Definition str_leb (a b : list N) : bool := cmp_leb (str_cmp a b).
 Definition mem_str (c : list N) (l : list (list N)) : bool := existsb (str_eqb c) l.
 
@@ -96,10 +93,14 @@ Definition mem_str (c : list N) (l : list (list N)) : bool := existsb (str_eqb c
 Definition used_commodities (txns : list txn) : list (list N) :=
   dedup_by str_eqb (sort_by str_leb (map p_comm (flat_map t_posts txns))).
 
+(* the instant condition of the fixed cache: `matches!(self, LastPriceDbEntry) || e.timestamp < lookup_timestamp`
+   — ref = None for last-price (every entry counts), Some t for given-time *)
+Definition before_ref (ref : option Z) (e : pentry) : bool :=
+  match ref with None => true | Some t => pe_ts e <? t end.
 (* Cache::Fixed: filter + map + collect::<HashMap>() — a later entry of the (sorted) db overwrites *)
-Definition fixed_keep (used : list (list N)) (target : list N) (ref : Z) (e : pentry) : bool :=
-  mem_str (pe_base e) used && str_eqb (pe_eq e) target && (pe_ts e <? ref).
-Definition fixed_cache (used : list (list N)) (target : list N) (ref : Z) (db : list pentry)
+Definition fixed_keep (used : list (list N)) (target : list N) (ref : option Z) (e : pentry) : bool :=
+  mem_str (pe_base e) used && str_eqb (pe_eq e) target && before_ref ref e.
+Definition fixed_cache (used : list (list N)) (target : list N) (ref : option Z) (db : list pentry)
   : list (list N * (Z * dec)) :=
   fold_left (fun m e => if fixed_keep used target ref e then upsert (pe_base e) (pe_ts e, pe_rate e) m else m) db [].
 
@@ -121,8 +122,8 @@ Definition make_ctx (lk : lookup) (txns : list txn) (target : option (list N)) (
     match lk with
     | LkNone => default_ctx
     | LkTxnTime => mkCtx (CTimed (timed_cache used tgt db)) (Some tgt)
-    | LkLastPrice => mkCtx (CFixed (fixed_cache used tgt TS_MAX db)) (Some tgt)
-    | LkGivenTime t => mkCtx (CFixed (fixed_cache used tgt t db)) (Some tgt)
+    | LkLastPrice => mkCtx (CFixed (fixed_cache used tgt None db)) (Some tgt)
+    | LkGivenTime t => mkCtx (CFixed (fixed_cache used tgt (Some t) db)) (Some tgt)
     end
   end.
 
@@ -147,11 +148,14 @@ Record conv : Type := mkConv { cv_acc : acct; cv_comm : list N; cv_amount : dec;
 
 Definition unconverted (p : posting) : conv := mkConv (p_acc p) (p_comm p) (p_amount p) None.
 
-(* the closure of convert_prices_inner *)
+(* the closure of convert_prices_inner:
+   `if p.acctn.comm.is_any() && p.acctn.comm != in_commodity { .. } else { unchanged }` *)
 Definition convert_post (ctx_cache : cache) (target : list N) (t : Z) (p : posting) : conv :=
   match p_comm p with
   | [] => unconverted p                                   (* !comm.is_any() *)
   | _ =>
+    if str_eqb (p_comm p) target then unconverted p       (* already in the report commodity *)
+    else
     match ctx_cache with
     | CFixed m =>
         match assoc_get (p_comm p) m with
